@@ -10,6 +10,34 @@ namespace Texel
 /-- spike removal does not multiply vertices -/
 def KmpNoDup : Prop := ∀ (ring out : Array P) (v : P), kmpDeduplicateF ring = .ok out → out.toList.count v ≤ ring.toList.count v
 
+/-- every range spike removal records for `RemoveSequences` runs forward (`from ≤ to`) — a statement about the bookkeeping of
+`kmpDeduplicate` only (its loop, not what is done with the ranges); demanded only where `RemoveSequences` does not panic. The driver
+evaluates it (`rangesForwardB`) on every ring of the `kmp` stream. -/
+def KmpRangesForward : Prop := ∀ (ring out : Array P) (seqs : SeqMap),
+  kmpLoop ring (4 * ring.size * (ring.size + 2) + 16) ⟨0, #[], {}⟩ = .ok seqs → removeSeqsF ring seqs.entries.toList 0 = .ok out →
+  ∀ e ∈ seqs.entries.toList, e.2.1 ≤ e.2.2
+
+/-- **`KmpNoDup` reduced to the bookkeeping of the spike search**: if the recorded ranges run forward, `RemoveSequences` returns a sublist of
+the ring (overlapping ranges are excluded by its own slice bounds), so no vertex is multiplied. -/
+theorem kmpNoDup_of_rangesForward (h : KmpRangesForward) : KmpNoDup := by
+  intro ring out v hk
+  unfold kmpDeduplicateF at hk
+  simp only [bind, Except.bind] at hk
+  split at hk
+  · simp at hk
+  · rename_i seqs hseqs
+    exact removeSeqsF_count ring _ out hk (h ring out seqs hseqs hk) v
+
+/-- what spike removal returns is a sublist of the ring it was given (under `KmpRangesForward`): nothing repeated, nothing reordered -/
+theorem kmpDeduplicateF_sublist (h : KmpRangesForward) (ring out : Array P) (hk : kmpDeduplicateF ring = .ok out) :
+    out.toList.Sublist ring.toList := by
+  unfold kmpDeduplicateF at hk
+  simp only [bind, Except.bind] at hk
+  split at hk
+  · simp at hk
+  · rename_i seqs hseqs
+    simpa using removeSeqsF_sublist ring _ 0 out hk (h ring out seqs hseqs hk)
+
 theorem count_split (l pre suf : List P) (v : P) (h : l = pre ++ v :: suf) (hc : l.count v ≤ 1) : v ∉ pre ∧ v ∉ suf := by
   subst h
   simp only [List.count_append, List.count_cons_self] at hc
